@@ -20,6 +20,7 @@ All rights reserved.
 #include "simulator/http_server.hpp"
 
 #include <functional>
+#include <limits>
 #include <cstdio> // for printf
 
 using namespace sim::asio;
@@ -183,7 +184,12 @@ namespace sim
 				// skip "bytes "
 				range = range.substr(range.find_first_of('=') + 1);
 				start = std::stoll(range.substr(0, range.find('-')));
-				end = std::stoll(range.substr(range.find_first_of('-') + 1)) + 1;
+				std::int64_t const last = std::stoll(range.substr(range.find_first_of('-') + 1));
+				// "+ 1" below must not overflow (the request is closed like any other
+				// malformed one)
+				if (last == (std::numeric_limits<std::int64_t>::max)())
+					throw std::out_of_range("range end");
+				end = last + 1;
 			}
 
 			std::string header = "Content-Range: bytes " + std::to_string(start)
